@@ -48,7 +48,14 @@ class World:
         self.slots = ["Output"]          # model: names or None
         self.patterns = []               # model: ("P", name) | ("C", source) | None
         self.counter = 0
-        self.types = [api.m.Amplifier, api.m.Generator, api.m.Filter, api.m.MultiSynth, api.m.Lfo]
+        def labelled_metamodule(**kw):
+            # a MetaModule whose exposed controllers are labelled with words that are also attribute names of modules
+            mm = api.m.MetaModule(**kw)
+            mm.user_defined_controllers = 4
+            for i, word in enumerate(rng.sample(["Index", "Parent", "Name", "X", "Y", "Layer", "Project", "Flags"], 4)):
+                mm.user_defined[i].label = word
+            return mm
+        self.types = [api.m.Amplifier, api.m.Generator, api.m.Filter, api.m.MultiSynth, api.m.Lfo, labelled_metamodule, api.m.Sampler]
         self.other = api.Project()       # the foreign project
         self.other_mod = self.other.new_module(api.m.Amplifier, name="foreign")
         self.other_pat = api.Pattern(name="foreignpat", tracks=1, lines=1)
@@ -392,6 +399,38 @@ class World:
                 return False
         return self.check(("note_mod",))
 
+    def op_legacy_reload(self):
+        """A file stamped with a SunVox version below 1.9.5.0: the module column of its cells is one byte wide (the high byte is
+        documented as junk there) - for EVERY cell, also one that holds nothing but a module number."""
+        if getattr(self, "no_more_saves", False) or len(self.slots) > 250:
+            return True
+        pats = [q for q in self.p.patterns if isinstance(q, self.api.Pattern)]
+        live = [m for m in self.p.modules if m is not None]
+        if not pats or not live:
+            return True
+        q = self.rng.choice(pats)
+        m = self.rng.choice(live)
+        ln, tr = self.rng.randrange(q.lines), self.rng.randrange(q.tracks)
+        n = q.data[ln][tr]
+        n.note, n.vel, n.ctl, n.val = self.api.NOTECMD(0), 0, 0, 0
+        if self.rng.random() < 0.5:
+            n.vel = 64
+        n.module = (m.index + 1) | (self.rng.randrange(1, 256) << 8)
+        keep = self.p.sunvox_version
+        self.p.sunvox_version = self.rng.choice([(1, 9, 4, 0), (1, 7, 0, 0), (1, 9, 4, 255)])
+        raw = self.p.read()
+        self.p.sunvox_version = keep
+        n.module = m.index + 1
+        loaded = self.api.read_sunvox_file(BytesIO(raw))
+        self.res.count("legacy_reloads")
+        pi = self.p.patterns.index(q)
+        got = loaded.patterns[pi].data[ln][tr]
+        if got.module != m.index + 1 or got.mod is not loaded.modules[m.index]:
+            self.res.violation("C14:note-mod-legacy-file", f"file stamped below 1.9.5.0: cell ({ln},{tr}) module column loads as {got.module:#x} -> {got.mod!r}, expected position {m.index} "
+                                                           f"({'module-only cell' if not got.vel else 'cell with velocity'})", {"history": self.history[-40:]})
+            return False
+        return self.check(("legacy_reload",))
+
     def op_save_load(self):
         if getattr(self, "no_more_saves", False):
             return True
@@ -423,8 +462,10 @@ class World:
             return self.op_iadd_list()
         if r < 0.80:
             return self.op_attach_pattern()
-        if r < 0.92:
+        if r < 0.90:
             return self.op_note_mod()
+        if r < 0.93:
+            return self.op_legacy_reload()
         return self.op_save_load()
 
 
